@@ -60,6 +60,8 @@ type funcSpec struct {
 	threaded map[string][]string
 	// wrapTransparent: fmt.Errorf("… %w …", …, err) IS err (what errors.Is / errors.As see; the added text carries no meaning here)
 	wrapTransparent bool
+	// threadedFields: like threaded, for state held in FIELDS of a struct variable: "pkg.Name" -> dotted paths ("a.dst")
+	threadedFields map[string][]string
 	// nilable: slice variables (named results included) whose being nil is tested and differs from being empty: translated as
 	// Option; a value assigned to one is wrapped in `some` — i.e. ASSUMED not to be nil (say why in the directive's comment)
 	nilable []string
@@ -172,6 +174,8 @@ var funcSpecs = []funcSpec{
 	{rel: "internal/stream", name: "NewWriter", abstract: []string{"chacha20poly1305.New"}, opaque: streamOpaque},
 	{rel: "plugin", name: "openClientConnection", abstract: []string{"execabs.Command", "filepath.Join"},
 		opaque: map[string]string{"plugin.clientConnection": "χ", "exec.Cmd": "χ", "io.ReadCloser": "κ"}, stopAt: "err != nil", stopRet: []string{"cmd", "err"}},
+	{rel: "armor", name: "(*armoredWriter).Write", abstract: []string{"format.Write"}, opaque: armorWOpaque, threadedFields: armorWThreaded},
+	{rel: "armor", name: "(*armoredWriter).Close", abstract: []string{"format.Close", "format.LastLineIsEmpty"}, opaque: armorWOpaque, threadedFields: armorWThreaded},
 	{rel: "", name: "ParseRecipients", abstract: []string{"age.ParseX25519Recipient"}, opaque: map[string]string{"Recipient": "κ", "X25519Recipient": "κ"}, errInts: true},
 }
 
@@ -193,6 +197,11 @@ var cliOpaque = map[string]string{"age.Recipient": "ρ", "plugin.Recipient": "ρ
 var marshalAbstract = []string{"format.NewWrappedBase64Encoder", "format.Write", "format.Close"}
 var marshalOpaque = map[string]string{"io.Writer": "δ", "format.WrappedBase64Encoder": "ω", "base64.Encoding": "ε"}
 var marshalThreaded = map[string][]string{"format.NewWrappedBase64Encoder": {"w"}, "format.Write": {"ww", "w"}, "format.Close": {"ww", "w"}}
+
+// the armor writer: the destination is abstract state; the wrapped base64 encoder, which holds the same destination, is an
+// abstract handle whose operations work on it
+var armorWOpaque = map[string]string{"io.Writer": "δ", "format.WrappedBase64Encoder": "ω"}
+var armorWThreaded = map[string][]string{"format.Write": {"a.encoder", "a.dst"}, "format.Close": {"a.encoder", "a.dst"}}
 
 // agessh: the primitives, the key's wire form and its fingerprint are abstract
 var sshAbstract = []string{"curve25519.X25519", "format.EncodeToString", "format.DecodeString", "agessh.aeadEncrypt", "agessh.aeadDecrypt", "agessh.sshFingerprint"}
@@ -2036,6 +2045,27 @@ func (c *fctx) assignedIn(n ast.Node) map[*types.Var]bool {
 			for _, v := range c.threadedVars(s) {
 				m[v] = true
 			}
+			if tf, ok := c.fi.Pkg.callee(s).(*types.Func); ok && tf.Pkg() != nil {
+				// state held in fields of a struct variable: the variable is assigned
+				if c.spec != nil {
+					for _, path := range c.spec.threadedFields[tf.Pkg().Name()+"."+tf.Name()] {
+						if ex := c.fieldPathExpr(path); ex != nil {
+							if v := root(ex); v != nil {
+								m[v] = true
+							}
+						}
+					}
+				}
+				if (tf.Pkg().Path() == "io" && tf.Name() == "WriteString") || (tf.Pkg().Path() == "fmt" && tf.Name() == "Fprintf") {
+					if len(s.Args) > 0 {
+						if lt, _ := leanTypeOf(c.typeOf(s.Args[0])); lt == "δ" || lt == "η" {
+							if v := root(s.Args[0]); v != nil {
+								m[v] = true
+							}
+						}
+					}
+				}
+			}
 			// io.LimitReader(rd, n) (read to the end by io.ReadAll) consumes from the bufio.Reader
 			if g, ok := c.fi.Pkg.callee(s).(*types.Func); ok && g.Pkg() != nil && g.Pkg().Path() == "io" && g.Name() == "LimitReader" && len(s.Args) == 2 && isBufioReader(c.typeOf(s.Args[0])) {
 				if v := root(s.Args[0]); v != nil {
@@ -2662,6 +2692,27 @@ func (c *fctx) stmt(e *emitter, ind int, s ast.Stmt) {
 		if len(st.Results) == 0 {
 			for _, r := range c.results {
 				vals = append(vals, c.nameOf(r))
+			}
+		} else if tc, isCall := func() (*ast.CallExpr, bool) {
+			if len(st.Results) != 1 {
+				return nil, false
+			}
+			cl, ok := ast.Unparen(st.Results[0]).(*ast.CallExpr)
+			if !ok {
+				return nil, false
+			}
+			f, _ := c.fi.Pkg.callee(cl).(*types.Func)
+			return cl, c.isThreaded(f)
+		}(); isCall {
+			// return f(…) where f is an abstract callee that takes and hands back state
+			f := c.fi.Pkg.callee(tc).(*types.Func)
+			t, n := c.emitThreaded(e, ind, st, tc, f)
+			for i := range c.results {
+				p := t + strings.Repeat(".2", i)
+				if i < n-1 {
+					p += ".1"
+				}
+				vals = append(vals, p)
 			}
 		} else if len(st.Results) == 1 && len(c.results) > 1 {
 			// return f(…) with a multi-valued call
